@@ -352,6 +352,22 @@ def memoRun {ρ κ τ : Type} [DecidableEq κ] (compute : ρ → τ) (keyOf : ρ
   | _, [] => []
   | memo, r :: h => (memoStep compute keyOf evict memo r).1 :: memoRun compute keyOf evict (memoStep compute keyOf evict memo r).2 h
 
+/-- `dpss_windows` REFUSES `interp_from > N` (`ValueError`) -/
+def TReq.refused (r : TReq) : Bool := r.N < r.interp
+
+/-- a provider history with refusals (L7): a refused request answers `none` and leaves the memo exactly as it was; the
+next accepted request is answered as if the refused one had never been made -/
+def memoRunE {κ τ : Type} [DecidableEq κ] (compute : TReq → τ) (keyOf : TReq → κ)
+    (evict : List (κ × τ) → List (κ × τ)) : List (κ × τ) → List TReq → List (Option τ)
+  | _, [] => []
+  | memo, r :: h =>
+    if r.refused then none :: memoRunE compute keyOf evict memo h
+    else some (memoStep compute keyOf evict memo r).1 :: memoRunE compute keyOf evict (memoStep compute keyOf evict memo r).2 h
+
+/-- the specification with refusals: stateless -/
+def specTapersE {τ : Type} (compute : TReq → τ) (h : List TReq) : List (Option τ) :=
+  h.map fun r => if r.refused then none else some (compute r)
+
 /-- keep the 16 most recent entries -/
 def evict16 {α : Type} (m : List α) : List α := m.take 15
 
@@ -520,7 +536,8 @@ def handle (args : List String) : String :=
     match parseTReqs? reqs with
     | some h =>
       -- a memo keyed by the WHOLE request (sound: `memoRun_eq_map`), evicting like the 16-entry cache
-      "ok " ++ showBoolList (memoRun TReq.interpolated id evict16 [] h)
+      "ok " ++ joinList ((memoRunE TReq.interpolated id evict16 [] h).map fun
+        | none => "2" | some true => "1" | some false => "0")
     | none => "bad-op"
   | _ => "bad-op"
 
